@@ -58,6 +58,11 @@ func normCond(cond ssa.Value, pol bool) string {
 				x, y = y, x
 				op = mirrorOp[op]
 			}
+			if x == y && mirrorOp[op].String() < op.String() {
+				// both operands render the same (e.g. a variable before and after an increment): the
+				// order cannot be told from the rendering, so the operator is made canonical instead
+				op = mirrorOp[op]
+			}
 			return x + " " + op.String() + " " + y
 		}
 	}
